@@ -15,8 +15,8 @@ Definition max_token : N := 65536.
 
 Definition drop_cr (line : bytes) : bytes :=
   match rev line with
-  | 13 :: r => rev r
-  | _ => line
+  | c :: r => if N.eqb c 13 then rev r else line
+  | [] => line
   end.
 
 (* raw lines: split at 10; the text after the last '\n' is a line only if it is not empty *)
